@@ -110,8 +110,9 @@ CLAIMED = {
         "that client (registered value, else the provider's list), names exactly that client, and ALL effective parameters are the object's; "
         "unsigned objects are refused when a signing algorithm is registered; wrong key / non-permitted algorithm / other client refused. PAR — "
         "par_one_shot: in every history of pushes, redemptions (any client, any URN, any number of replays) and clock advances each URN is "
-        "honoured at most once (induction with a freshness/no-duplicates invariant), unknown URNs refused; the missing lifetime and client "
-        "binding are a proved counter-example (known findings F-C16-c/d, replayed on every run). Tie: request objects built concretely with "
+        "honoured at most once (induction with a freshness/no-duplicates invariant), unknown URNs refused; redeem_proceeds: a redemption "
+        "proceeds only for an issued URN, only for the client that pushed it, only while now <= push time + announced lifetime, with the "
+        "stored request. Tie: request objects built concretely with "
         "cryptojwt across signer x inner client_id x registered-algorithm clients through the real authorization endpoint, and PAR histories "
         "through the real pushed-authorization + authorization endpoints.",
    note="JWS verification idealised (field `verifies` from the harness's knowledge of the signing key); the request_uri fetch transport is not driven "
